@@ -34,3 +34,20 @@ Definition malformed_oracle (v : N) (t : ty) (bs : bytes) (o : obs6) : bool :=
   | O6Oom => true
   | O6Panic => false
   end.
+
+(* ArrayVec<T, CAP> at the top level *)
+Definition agree_arrayvec (md : mode) (v : N) (t : ty) (cap : N) (bs : bytes) (o : obs6) : bool :=
+  match arrayvec_dec md x_bulk_checked_mul v t cap bs, o with
+  | Ok (y, r), O6Ok c y' => val_eqb y y' && (c + N.of_nat (length r) =? N.of_nat (length bs))
+  | Err e, O6Err e' => err_tag2 e =? err_tag2 e'
+  | Panic, O6Panic => true
+  | _, _ => false
+  end.
+Definition arrayvec_oracle (t : ty) (cap : N) (o : obs6) : bool :=
+  match o with
+  | O6Ok _ (VSeq l) => (N.of_nat (length l) <=? cap) && forallb (valid_val t) l
+  | O6Ok _ _ => false
+  | O6Err _ => true
+  | O6Oom => false
+  | O6Panic => false
+  end.
